@@ -1054,6 +1054,9 @@ func (fr *Frame) unop(x *ssa.UnOp, st *State) *Val {
 		t := u.loadAddr(st, a)
 		u.closedPre(a, x.Type())
 		res := fr.named(x, t, x.Type())
+		if strings.HasPrefix(a.Heap, "A:") && u.nonnilElem(x.Type()) {
+			u.fact(implies(fmt.Sprintf("(< (birth %s) %s)", a.Ref, u.entryNow), u.nonnilFact(res.T, x.Type())))
+		}
 		for _, f := range u.wfFacts(st, res.T, x.Type(), 0) {
 			u.fact(f)
 		}
